@@ -3977,7 +3977,11 @@ def fix_raise_missing_from(source: str) -> str:
     except {{exception}} as error:
         raise {{something}} from error
     """
-    yield from processing.find_replace(source, find, replace)
+    root = core.parse(source)
+    if any(core.walk(root, (ast.Name(id="error"), ast.arg(arg="error")))):
+        return  # The name bound by "as error" would shadow, and afterwards unbind, a variable
+
+    yield from processing.find_replace(source, find, replace, root=root)
 
 
 @processing.fix
